@@ -338,6 +338,23 @@ def r5_construction(a, tier):
     if not ok:
         rep.fail(fn.qualname, 'construct:typed-args', f'_default(ast, "T::B", "p1", 7) instantiates {inst}; required: class T with the AST first and the '
                  f'further rule parameters ("p1", 7) after it', fn.loc)
+    # (b2) _instanceof always builds through the constructor - also when the value already is an instance of the class
+    #      (a typed rule whose value is a node of its own class or of a subclass: Stmt(ast=Assign(...)))
+    inst_fn = a.p.func(f'{BLD}._instanceof')
+    Cls = type('Stmt', (), {})
+    already = type('Assign', (Cls,), {})()
+    calls: list = []
+    bme = Stub(BLD, _get_constructor=Hook(lambda name, base=None, **k: Cls))
+    it = interp({'boundcall': Hook(lambda ctor, known, *args, **kw: calls.append((ctor, args)) or 'BUILT'), 'isinstance': Hook(isinstance)})
+    try:
+        got = it.call_bound(Bound(bme, inst_fn), ['Stmt', {'ast': already, 'exp': already}, already], {'base': None})
+    except Unsupported as e:
+        raise AnalysisError(f'C07.R5: cannot interpret _instanceof: {e}') from e
+    ok = got == 'BUILT' and len(calls) == 1 and calls[0][0] is Cls
+    rep.add({'case': '_instanceof when the value already is an instance of (a subclass of) the class', 'returns': repr(got) if got == 'BUILT' else type(got).__name__, 'constructed': len(calls), 'ok': ok})
+    if not ok:
+        rep.fail(inst_fn.qualname, 'construct:always', f'_instanceof("Stmt", ast=<an Assign(Stmt) node>) returns {type(got).__name__ if got != "BUILT" else got} with {len(calls)} constructor '
+                 f'calls; required: the constructor is called (the typed rule yields a Stmt node whose ast is the Assign node, not the bare Assign node)', inst_fn.loc)
     # (c) constructor lookup
     gc = a.p.func(f'{BLD}._get_constructor')
     class _Reg:
